@@ -38,12 +38,12 @@ def _machine(rec):
 
     class M15(base):
         @rule(kind=st.sampled_from(machine.Harness.BAD_KINDS), p=st.integers(0, 3),
-              x=st.one_of(st.sampled_from([0.01, 1.0, 5.0, 1e-9, 100.0, 1e6]),
+              x=st.one_of(st.sampled_from([0.01, 1.0, 5.0, 1e-9, 100.0, 1e6, 0.004, 0.001]),
                           st.floats(0.01, 1000.0).map(lambda v: float('%.4g' % v))))
         def bad(self, kind, p, x):
             self._do(['bad', kind, p, x])
 
-        @rule(kind=st.sampled_from(machine.Harness.BAD_KINDS), p=st.integers(0, 3), x=st.sampled_from([0.01, 1.0, 250.0]))
+        @rule(kind=st.sampled_from(machine.Harness.BAD_KINDS), p=st.integers(0, 3), x=st.sampled_from([0.01, 1.0, 250.0, 0.004]))
         def bad2(self, kind, p, x):
             self._do(['bad', kind, p, x])
 
